@@ -5,6 +5,7 @@ import Driver.OpsAv1
 import Driver.OpsEdit
 import Driver.OpsEditor
 import Driver.OpsExport
+import Driver.OpsGen
 import Driver.OpsFile
 import Driver.OpsCapi
 /-! `dovi_model`: the executable model behind the line protocol (one case per line in, one result per line out). -/
@@ -17,6 +18,7 @@ def step (line : String) : String :=
     if ["esc", "unesc", "hesc", "hunesc", "escdigest"].contains op then C13.run parts
     else if op.startsWith "av1." || op == "c08.av1" || (op == "c08.capi" && parts.getD 1 "" == "av1") then Av1Ops.run parts
     else if op.startsWith "file." then FileOps.run parts
+    else if op == "gen" then GenOps.run parts
     else if op == "export" then ExportOps.run parts
     else if op == "editor" then EditorOps.run parts
     else if op.startsWith "capi." || op == "rpu.ops3" then CapiOps.run parts
